@@ -20,7 +20,7 @@ SCOPE = "prefix"
 W_ENTRIES = ("flat_to_frames", "stream_frames", "flat_to_file_raw")
 
 
-OPT_MODES = ("plain", "explicit-flow", "derived", "mutated")
+OPT_MODES = ("plain", "explicit-flow", "derived", "mutated", "bounded-unspecified")
 
 
 def make_opts(api: str, cls: str, preset, frame_size: int, mode: str):
@@ -34,6 +34,13 @@ def make_opts(api: str, cls: str, preset, frame_size: int, mode: str):
         opts = DR.make_options(cls, preset, 250, True)
         fcls = flows.FlatTriplesFrameFlow if cls == "triple" else flows.FlatQuadsFrameFlow
         opts.flow = fcls(frame_size=frame_size)
+        return opts
+    if mode == "bounded-unspecified":
+        # no logical type stated at all; the frame size comes with a plain BoundedFrameFlow
+        from pyjelly.serialize import flows  # noqa: PLC0415
+
+        opts = DR.make_options(cls, preset, 250, True, 0)
+        opts.flow = flows.BoundedFrameFlow(frame_size=frame_size)
         return opts
     # the options object configured an earlier (bulk) stream before this one
     import dataclasses  # noqa: PLC0415
